@@ -52,11 +52,23 @@ PROGRAMS = {
     'set||get||delete': dict(names=[['set'], ['get'], ['delete']]),
     'flush||flush||set': dict(names=[['flush'], ['flush'], ['set']]),
 }
+def final_accounting(progs, obs, final, st):
+    # key absent at the start, unconditional stores / deletes / gets only: none of the known drift sources (overwrite of an
+    # existing record, rejected conditional store, flush, lazy expiry) applies unless two stores hit the key
+    nstores = sum(1 for p in progs for c, _ in p if c == 'set')
+    if nstores > 1:
+        return z3.BoolVal(True)
+    fv, fval, fflags, fcas, usage = final
+    tot = z3.If(fv, BV(24) + vlen(fval), BV(0))
+    return z3.Implies(z3.Not(st.present[0]), usage == tot)
+
+
 POLICY_PROGRAMS = {
     'evicting set||set': dict(names=[['set'], ['set']]),
     'evicting set||get': dict(names=[['set'], ['get']], stale=True),
     'evicting set||flush': dict(names=[['set'], ['flush']]),
-    'evicting set||delete': dict(names=[['set'], ['delete']]),
+    'evicting set||delete': dict(names=[['set'], ['delete']], extra=[('accounted usage equals the stored total afterwards (C15)', final_accounting)]),
+    'set||get (policy)': dict(names=[['set'], ['get']], extra=[('accounted usage equals the stored total afterwards (C15)', final_accounting)]),
     'evicting set||set||get': dict(names=[['set'], ['set'], ['get']]),
 }
 
@@ -83,7 +95,7 @@ def run_item(ck, it, tier):
             # accounted usage = stored total in the pre-state (what one insert per key reaches; replayable natively)
             return cas0(progs, st) + [z3.ULT(L, 1 << 40), st.usage == z3.If(st.present[0], BV(24) + vlen(st.val[0]), BV(0))]
         return explore_program(ck, P['names'], constraints=cons, allow_stale=P.get('stale', False), policy='random', memory_limit=L,
-                               check_lin=False, known_regions=False, budget_s=900, prefixes=prefixes,
+                               check_lin=False, known_regions=False, budget_s=900, prefixes=prefixes, extra_obligations=P.get('extra'),
                                frontier_depth=(12 if prefixes == 'frontier' else None))
 
 
@@ -96,7 +108,7 @@ def run(tier, seed, replay_path=None):
     items = [('plain', n) for n in PROGRAMS] + [('policy', n) for n in POLICY_PROGRAMS]
     if tier == 'quick':
         items = [('plain', n) for n in ('set||set', 'set||flush', 'get||flush', 'delete||set')] + \
-                [('policy', n) for n in ('evicting set||set', 'evicting set||get', 'evicting set||flush')]
+                [('policy', n) for n in ('evicting set||set', 'evicting set||get', 'evicting set||flush', 'evicting set||delete')]
     ck.bounds.update({'single client': 'every command, both store variants, 2 keys, arbitrary state', 'programs': [n for _, n in items],
                       'eviction sweep': 'unwound <= 8 times', 'granularity': 'calls into DashMap / atomics'})
     ck.assumptions += ['DashMap: a call blocks iff another thread holds a conflicting guard of the map (same shard assumed); parking_lot fairness not modelled',
